@@ -89,10 +89,12 @@ def extract(label: str) -> Dict[str, Any]:
     names[0:ndefined] are defined (library elements + one pseudo element per bracket set), the rest are
     names that are referenced but not defined.  edges[i] = sorted ids referenced by names[i] (defined only).
     """
-    from sqlfluff.core.dialects import dialect_selector
+    from sqlfluff.core.dialects import dialect_selector, load_raw_dialect
 
     dia = dialect_selector(label)
     lib = dia._library
+    # NB the expanded copy names itself as its parent (expand() goes through copy_as); ask the raw dialect
+    parent = load_raw_dialect(label).inherits_from
     raw: Dict[str, Set[str]] = {}
     for name in sorted(lib):
         raw[name] = refs_inside(lib[name], dia)
@@ -107,31 +109,19 @@ def extract(label: str) -> Dict[str, Any]:
     idx = {n: i + 1 for i, n in enumerate(names)}
     edges = [sorted(idx[m] for m in raw[n]) for n in defined]
     return {"label": label, "root": idx[dia.root_segment_name], "names": names, "ndefined": len(defined),
-            "edges": edges, "inherits": dia.inherits_from, "dialect": dia}
+            "edges": edges, "inherits": parent if parent != label else None}
 
 
-def tla_data_module(graphs: List[Dict[str, Any]], observed: Dict[str, List[str]]) -> str:
-    """The generated module DialectGraphData (constants of DialectGraph.tla)."""
-    def seq(xs):
-        return "<<" + ", ".join(xs) + ">>"
-
-    def st(s: str) -> str:
-        return '"' + s.replace("\\", "\\\\").replace('"', '\\"') + '"'
-
-    out = ["---- MODULE DialectGraphData ----", "\\* generated by harness/vf/dialect_graph.py from the expanded dialect libraries"]
-    out.append("Dialects == " + seq(st(g["label"]) for g in graphs))
-    out.append("NDefined == " + seq(str(g["ndefined"]) for g in graphs))
-    out.append("RootOf == " + seq(str(g["root"]) for g in graphs))
-    out.append("NameOf == " + seq(seq(st(n) for n in g["names"]) for g in graphs))
-    out.append("EdgesOf == " + seq(seq("{" + ", ".join(map(str, e)) + "}" for e in g["edges"]) for g in graphs))
+def graph_data(graphs: List[Dict[str, Any]], observed: Dict[str, List[str]]) -> Dict[str, Any]:
+    """The data DialectGraph.tla runs on (written as JSON, read through IOEnv.VF_GRAPH)."""
     obs = []
     for g in graphs:
         idx = {n: i + 1 for i, n in enumerate(g["names"])}
         # a name never seen by the extractor gets id 0, which is not a node: reported as unexplained
-        obs.append("{" + ", ".join(str(i) for i in sorted({idx.get(n, 0) for n in observed.get(g["label"], [])})) + "}")
-    out.append("ObservedOf == " + seq(obs))
-    out.append("====")
-    return "\n".join(out) + "\n"
+        obs.append(sorted({idx.get(n, 0) for n in observed.get(g["label"], [])}))
+    return {"Dialects": [g["label"] for g in graphs], "NDefined": [g["ndefined"] for g in graphs],
+            "RootOf": [g["root"] for g in graphs], "NameOf": [list(g["names"]) for g in graphs],
+            "EdgesOf": [[list(e) for e in g["edges"]] for g in graphs], "ObservedOf": obs}
 
 
 # ---------------------------------------------------------------- observation of Dialect.ref
@@ -226,7 +216,7 @@ class Sentences:
         if isinstance(o, StringParser):
             return [o.template]
         if isinstance(o, MultiStringParser):
-            return [sorted(o.templates)[0]]
+            return [sorted(o.templates)[0]] if o.templates else None
         if isinstance(o, TypedParser):
             s = self.samples.get(o.template)
             return [s] if s is not None else None
@@ -414,7 +404,12 @@ def witnesses(label: str, dangling: List[Tuple[str, str]]) -> List[Dict[str, Any
 
 
 def witness_job(job: Tuple[str, List[Tuple[str, str]]]) -> Dict[str, Any]:
-    return {"label": job[0], "witnesses": witnesses(job[0], [tuple(x) for x in job[1]])}  # type: ignore[misc]
+    pairs = [tuple(x) for x in job[1]]
+    try:
+        return {"label": job[0], "witnesses": witnesses(job[0], pairs)}  # type: ignore[arg-type]
+    except Exception as e:  # noqa: BLE001 - witnesses are best effort
+        return {"label": job[0], "witnesses": [{"from": f, "to": t, "sql": None, "outcome": "generator-error",
+                                                "message": f"{type(e).__name__}: {e}"} for f, t in pairs]}
 
 
 # ---------------------------------------------------------------- where a dangling reference is defined
@@ -427,7 +422,7 @@ def definers(graphs: Dict[str, Dict[str, Any]], dangling: Dict[str, List[Tuple[s
             cur = d
             while True:
                 parent = graphs[cur]["inherits"] if cur in graphs else None
-                if parent and parent in sets and (frm, to) in sets[parent]:
+                if parent and parent != cur and parent in sets and (frm, to) in sets[parent]:
                     cur = parent
                 else:
                     break
